@@ -44,6 +44,8 @@ type c09emitted struct {
 	rawPayload []byte
 }
 
+var c09nodeCounter int
+
 // c09forwardID marks the frames that the application forwards through the node (raw, id outside every dialect).
 const c09forwardID = 0xF0F0F1
 
@@ -350,9 +352,17 @@ func TestC09(t *testing.T) {
 				trs[i] = fake.NewTransport(fmt.Sprintf("n%d", i))
 				eps = append(eps, gomavlib.EndpointCustom{ReadWriteCloser: trs[i]})
 			}
+			// the dialect's version number (it travels in the last byte of the node's heartbeats) is 3, or 0 as in the shipped
+			// "development" and "icarous" dialects and in every user dialect that leaves it unset
+			c09nodeCounter++
+			dver := 3
+			if c09nodeCounter%2 == 0 {
+				dver = 0
+				rep.Count("nodes_with_dialect_version_0", 1)
+			}
 			node := &gomavlib.Node{
 				Endpoints:              eps,
-				Dialect:                &dialect.Dialect{Version: 3, Messages: dmsgs},
+				Dialect:                &dialect.Dialect{Version: dver, Messages: dmsgs},
 				OutVersion:             gomavlib.Version(conf.version),
 				OutSystemID:            conf.sys,
 				OutComponentID:         conf.comp,
